@@ -422,7 +422,14 @@ func (d *drv) arg(b []byte) *argbuf {
 	if b == nil {
 		return &argbuf{}
 	}
-	return &argbuf{cur: append(make([]byte, 0, len(b)), b...), orig: b}
+	// the argument is the front part of a larger array of the caller (a key followed by its payload, say): what lies
+	// behind it within the capacity is the caller's memory too
+	buf := make([]byte, len(b)+16)
+	copy(buf, b)
+	for i := len(b); i < len(buf); i++ {
+		buf[i] = 0x5C
+	}
+	return &argbuf{cur: buf[:len(b)], orig: b}
 }
 
 func (d *drv) after(what string, bufs ...*argbuf) {
@@ -433,6 +440,11 @@ func (d *drv) after(what string, bufs ...*argbuf) {
 	for _, a := range bufs {
 		if !bytes.Equal(a.cur, a.orig) {
 			same = false
+		}
+		for _, c := range a.cur[len(a.cur):cap(a.cur)] {
+			if c != 0x5C {
+				same = false
+			}
 		}
 		for i := range a.cur {
 			a.cur[i] = 0xAA
